@@ -469,7 +469,7 @@ class Node(object):
         self.change_customer_class(next_individual)
         next_node = self.next_node(next_individual)
         next_individual.destination = next_node.id_number
-        if not isinf(self.c) and self.c > 0:
+        if not isinf(self.c) and not self.slotted:
             next_individual.server.next_end_service_date = float("Inf")
         if next_node.number_of_individuals < next_node.node_capacity:
             self.release(next_individual, next_node)
